@@ -275,6 +275,12 @@ def step (d : DState) (tok : List String) : DState × List String :=
     let calls := (List.range nl).flatMap (fun i => (List.range nr).map (fun j =>
       if regs.contains [0, i, j] then s!" {1000 * i + j}" else " E"))
     (d, ["product" ++ String.join (prod.map pr), "registered" ++ String.join (sorted.map pr), "calls" ++ String.join calls])
+  | "static-check" :: ar :: rest =>
+    -- static-check <arity> <static slots and strides...> | <installed slots and strides...>
+    let ar := ar.toNat?.getD 0
+    let st := (rest.takeWhile (· != "|")).filterMap String.toNat?
+    let ins := ((rest.dropWhile (· != "|")).drop 1).filterMap String.toNat?
+    (d, [match staticCheck ar st ins with | none => "static-check ok" | some e => "static-check " ++ e])
   | "aggregate" :: n :: _ =>
     -- aggregate<Tag<0>, ..., Tag<n-1>>: every element constructed exactly once
     let n := n.toNat?.getD 0
